@@ -9,14 +9,15 @@ Section call_facts.
   Variable e : env.
   Variable conv_common : common.
   Variable out_pkg : N.
+  Variable exc : list N.
   Variable FT : ftable.
   Variable ext : list N.
   Variable smeths : list (N * rstr * N).
-  Notation build := (build e conv_common out_pkg FT ext smeths).
-  Notation assign := (assign e conv_common out_pkg FT ext smeths).
-  Notation build_no_lookup := (build_no_lookup e conv_common out_pkg FT ext smeths).
-  Notation assign_no_lookup := (assign_no_lookup e conv_common out_pkg FT ext smeths).
-  Notation create_sub := (create_sub e conv_common out_pkg FT ext smeths).
+  Notation build := (build e conv_common out_pkg exc FT ext smeths).
+  Notation assign := (assign e conv_common out_pkg exc FT ext smeths).
+  Notation build_no_lookup := (build_no_lookup e conv_common out_pkg exc FT ext smeths).
+  Notation assign_no_lookup := (assign_no_lookup e conv_common out_pkg exc FT ext smeths).
+  Notation create_sub := (create_sub e conv_common out_pkg exc FT ext smeths).
   Notation call_existing := (call_existing e FT ext).
   Notation call_method := (call_method e).
   Notation call_fn := (call_fn e FT).
